@@ -32,6 +32,30 @@ CLAIMED = {
             "1-character values and 1-2 word contents with every admissible byte; readXML's file framing (fopen/fseek/fread) and the writer are outside; "
             "error-message text (stringstream/iostream) opaque; allocation never fails",
             "symbolic execution of LLVM IR with z3 (vp/llpath.py), native sanitizer replay"),
+    "C01": ("model_checking",
+            "Symbolic execution of the real parallel_for / parallel_foreach / parallel_in_blocks_of code on the internal (enkiTS) back end compiled from source and on "
+            "the serial back end (clang IR -> vp/llpath.py with its thread model: pthread_create, semaphores, volatile/atomic accesses executed; schedules explored "
+            "by forking at synchronisation points with a preemption bound). Task counts are symbolic and made concrete per value the solver finds feasible; the body "
+            "asserts it is only called inside [0,n); exactly-once and visibility are checked when the call returns; memory safety of the scheduler is an obligation.",
+            "DESIGN.md 3/C01",
+            "n in -2..5 (blocks: -1..10, block sizes 1,3,4); all 8 index types; 1 and 2 tasking threads (3 thorough) on one deterministic schedule, plus every schedule with "
+            "<= 1 preemption (2 thorough) for 2 threads; nested loops 0..2 x 0..2; TBB and OpenMP back ends NOT checked (closed libraries); sequentially consistent memory; n >= 2^31 outside",
+            "symbolic execution of LLVM IR with z3 and bounded schedule exploration (vp/llpath.py), native sanitizer replay"),
+    "C02": ("model_checking",
+            "Symbolic execution of schedule() and AsyncTask on the internal (enkiTS) and serial back ends (vp/llpath.py thread model, bounded schedule exploration): "
+            "execution count of every scheduled closure, use of task storage after release (heap checks), AsyncTask::get()/finished() for every int result with a "
+            "payload type that observes construction, destruction and assignment into unconstructed storage.",
+            "DESIGN.md 3/C02",
+            "1-2 tasking threads (3 thorough), bursts of 1..3 tasks, <= 1 preemption (2 thorough); async()/std::future (libstdc++.so internals), TBB and OpenMP back ends NOT checked; "
+            "two open known findings (self-deleting task, single-thread starvation) are reported as KNOWN-FINDING and excluded by exact signature",
+            "symbolic execution of LLVM IR with z3 and bounded schedule exploration (vp/llpath.py), native sanitizer replay"),
+    "C13": ("model_checking",
+            "Symbolic execution of initTaskingSystem/numTaskingThreads on the internal (enkiTS) and serial back ends (vp/llpath.py): reported count, number of worker "
+            "threads actually created, re-initialisation, and the maximum number of simultaneously active parallel_for bodies under explored schedules.",
+            "DESIGN.md 3/C13",
+            "n in {-1,0,1,2,3}, re-initialisation with 1..3; hardware_concurrency() fixed at 3; active-body bound for 1-2 threads (3 thorough) with <= 1 preemption (2 thorough); "
+            "TBB global_control and OpenMP NOT checked (closed libraries)",
+            "symbolic execution of LLVM IR with z3 and bounded schedule exploration (vp/llpath.py), native sanitizer replay"),
     "C15": ("model_checking",
             "Bounded symbolic checking of the real DataStreaming.cpp/.h code: FixedBufferWriter::write/reserve and BufferReader::read/getView "
             "as one step from an arbitrary valid (capacity,cursor) state with the size/count a full 64-bit symbol; typed round trips through "
